@@ -33,6 +33,7 @@ READS = re.compile(
     r"|std::io::Read::read_exact$|Cursor.*::set_position$)")
 VISITS = re.compile(r"serde_core::de::Visitor::visit_\w+$")
 SEED = re.compile(r"serde_core::de::DeserializeSeed::deserialize$")
+WIDTH_FN = {}      # {"key": <key of the fn(PrimitiveType) -> usize of candid::de>}, filled by Decoder.__init__
 HELPERS = re.compile(r"candid::de::Deserializer::<'de>::(deserialize_\w+|recoverable_visit_some)$")
 TRAIT_DE = re.compile(r"<&mut candid::de::Deserializer<'de> as serde_core::de::Deserializer<'de>>::(deserialize_\w+)$")
 
@@ -355,7 +356,7 @@ class FnInfo:
                                 v = op_int(q)
                                 if (v is not None and v >= 1) or "pos" in op_t(q) or "poscost" in op_t(q):
                                     changed |= add(l, "mul")
-                    elif name.endswith("de::primitive_byte_cost"):
+                    elif name == WIDTH_FN.get("key"):
                         changed |= add(l, "poscost")
                     elif re.search(r"(Try>::branch$|::ok_or_else$|::ok_or$|::unwrap_or\w*$|::expect$|::unwrap$)", name) and t["args"]:
                         for tg in op_t(t["args"][0]):
@@ -595,6 +596,8 @@ class Decoder:
 
     def __init__(self, facts):
         self.c = facts.crate("candid")
+        from shared import width_fn_key
+        WIDTH_FN["key"] = width_fn_key(self.c)
         self.bodies = {}
         for k, b in self.c.bodies.items():
             if b.span["file"].endswith("candid/src/de.rs") and b.j["kind"] != "Closure":
